@@ -276,7 +276,7 @@ def case_key(case):
 class Run:
     """a real Solver on a LoggedProblem for one case"""
 
-    def __init__(self, case, fail_at=None, exc=None, listeners=(), cap=None):
+    def __init__(self, case, fail_at=None, exc=None, listeners=(), cap=None, params=None):
         from iOpt.solver import Solver
         from iOpt.solver_parametrs import SolverParameters
         self.case = case
@@ -304,7 +304,8 @@ class Run:
             pk = dict(eps=np.float64(pk["eps"]), r=np.float64(pk["r"]), itersLimit=np.int64(pk["itersLimit"]),
                       evolventDensity=(np.int32 if case["np_params"] == "int32" else np.int64)(pk["evolventDensity"]),
                       refineSolution=np.bool_(pk["refineSolution"]))
-        self.solver = Solver(self.problem, SolverParameters(**pk))
+        # (params: an existing SolverParameters OBJECT to be used as it is - e.g. the one an earlier solver was built with)
+        self.solver = Solver(self.problem, params if params is not None else SolverParameters(**pk))
         # case["shipped"]: one of the listeners shipped with the library (console output, painters) is attached in front of the
         # oracle's own: the properties of a run are claimed whatever listeners watch it, and the painters probe the objective and
         # are handed the live search data and solution in OnMethodStop
